@@ -226,3 +226,97 @@ Proof.
   destruct (Hok _ H) as [c [Hf Ht]]. apply nkind_from in Hf as [Hf1 Hf2]. apply nkind_to in Ht as [Ht1 Ht2].
   repeat split; congruence.
 Qed.
+
+(* ================================================================== 2. paths *)
+Lemma valid_name_nosep n : valid_name n = true -> forall x, In x n -> N.eqb x sep = false.
+Proof.
+  unfold valid_name. destruct n as [|c n]; [discriminate|]. intros H x Hx.
+  rewrite forallb_forall in H. specialize (H x Hx). apply andb_true_iff in H as [H _].
+  now apply negb_true_iff in H.
+Qed.
+
+Lemma valid_name_ne n : valid_name n = true -> n <> [].
+Proof. destruct n; [discriminate | discriminate]. Qed.
+
+Lemma drop_to_sep_rev_app a b :
+  (forall x, In x a -> N.eqb x sep = false) -> drop_to_sep_rev (a ++ sep :: b) = sep :: b.
+Proof.
+  induction a as [|c a IH]; intros H; simpl.
+  - reflexivity.
+  - rewrite (H c (or_introl eq_refl)). apply IH. intros x Hx. apply H. now right.
+Qed.
+
+Lemma basename_rev_app a b acc :
+  (forall x, In x a -> N.eqb x sep = false) -> basename_rev (a ++ sep :: b) acc = rev a ++ acc.
+Proof.
+  revert acc; induction a as [|c a IH]; intros acc H; simpl.
+  - reflexivity.
+  - rewrite (H c (or_introl eq_refl)). rewrite IH by (intros x Hx; apply H; now right).
+    now rewrite <- app_assoc.
+Qed.
+
+Lemma in_rev_nosep n : (forall x, In x n -> N.eqb x sep = false) -> forall x, In x (rev n) -> N.eqb x sep = false.
+Proof. intros H x Hx. apply H. now apply in_rev. Qed.
+
+Lemma basename_child d n : valid_name n = true -> basename (d ++ sep :: n) = n.
+Proof.
+  intros Hn. unfold basename. rewrite rev_app_distr. simpl. rewrite <- app_assoc. simpl.
+  rewrite basename_rev_app by (apply in_rev_nosep, valid_name_nosep, Hn).
+  now rewrite rev_involutive, app_nil_r.
+Qed.
+
+Lemma dirname_child d n :
+  d <> [] -> last_is_sep d = false -> valid_name n = true -> dirname (d ++ sep :: n) = d.
+Proof.
+  intros Hd Hs Hn. unfold dirname. rewrite rev_app_distr. simpl. rewrite <- app_assoc. simpl.
+  rewrite drop_to_sep_rev_app by (apply in_rev_nosep, valid_name_nosep, Hn).
+  simpl. rewrite rev_involutive.
+  unfold rstrip_sep. rewrite rev_app_distr. simpl.
+  unfold last_is_sep in Hs. destruct (rev d) as [|c r] eqn:E.
+  - apply (f_equal (@rev N)) in E. rewrite rev_involutive in E. simpl in E. contradiction.
+  - simpl. rewrite Hs. rewrite <- E, rev_involutive.
+    destruct d; [contradiction | reflexivity].
+Qed.
+
+Lemma starts_sep_name a n : valid_name n = true -> starts (a ++ [sep]) n = false.
+Proof.
+  intros Hn. destruct (starts (a ++ [sep]) n) eqn:E; [|reflexivity].
+  apply starts_spec in E as [r Hr]. assert (H := valid_name_nosep n Hn sep).
+  exfalso. assert (In sep n); [|apply H in H0; discriminate].
+  rewrite Hr. apply in_app_iff. left. apply in_app_iff. right. left. reflexivity.
+Qed.
+
+Lemma Neqb_sym' x y : N.eqb x y = N.eqb y x.
+Proof. apply N.eqb_sym. Qed.
+
+Lemma under_child root d n : valid_name n = true ->
+  under root (d ++ sep :: n) = beqb d root || under root d.
+Proof.
+  intros Hn. unfold under. revert d. induction root as [|x root IH]; intros d.
+  - destruct d as [|c d]; simpl; [reflexivity | now rewrite andb_true_r].
+  - destruct d as [|c d]; simpl.
+    + rewrite starts_sep_name by exact Hn. now rewrite andb_false_r.
+    + rewrite IH. rewrite (N.eqb_sym c x). destruct (N.eqb x c); reflexivity.
+Qed.
+
+Lemma under_longer root p : under root p = true -> beqb p root = false.
+Proof.
+  unfold under. intros H. apply starts_spec in H as [r ->]. apply beqb_neq. intros E.
+  apply (f_equal (@length N)) in E. rewrite !app_length in E. simpl in E. lia.
+Qed.
+
+Lemma child_neq d n : beqb (d ++ sep :: n) d = false.
+Proof.
+  apply beqb_neq. intros E. apply (f_equal (@length N)) in E. rewrite app_length in E. simpl in E. lia.
+Qed.
+
+Lemma in_scope_child rec root d n :
+  d <> [] -> last_is_sep d = false -> valid_name n = true ->
+  in_scope rec root (d ++ sep :: n) = watched_dir rec root d.
+Proof.
+  intros Hd Hs Hn. unfold in_scope, watched_dir, is_child.
+  rewrite under_child by exact Hn. rewrite dirname_child by assumption.
+  destruct (beqb d root) eqn:E.
+  - apply beqb_eq in E. subst d. rewrite child_neq. simpl. now rewrite orb_true_r.
+  - simpl. destruct rec; simpl; [now rewrite andb_true_r | now rewrite andb_false_r].
+Qed.
